@@ -464,3 +464,34 @@ def forall_u8(fb, conds):
             k += 1
         out.append((seq, s if q == "all" else set(range(256)) - s, a))
     return out
+
+
+def desc_level(b):
+    """The level variable of a loop that walks the levels from `top` down to 1, in either spelling, seen from a back-edge path `b`
+    of that loop: returns (term standing for the current level in the body, top, guard conditions that belong to the loop
+    itself) or None.
+      `let mut d = top; while d > 0 { ..; d -= 1; }`  -> the loop-carried d (carried value d - 1, guard d > 0 / d != 0 on the path)
+      `for d in (1..=top).rev()` / `(1..top + 1).rev()` -> the item of the reversed range iterator"""
+    for e in b.trace:
+        if e[0] == "call" and e[1].endswith("Rev<I> as std::iter::Iterator>::next") and e[2] and isinstance(e[2][0], tuple) and e[2][0][0] == "phi" and e[2][0][2] == b.loop:
+            init = e[2][0][4]
+            if isinstance(init, tuple) and init[0] == "call" and init[1].endswith("Iterator::rev") and init[2]:
+                r = init[2][0]
+                top = None
+                if isinstance(r, tuple) and r[0] == "call" and r[1].endswith("RangeInclusive::<Idx>::new") and cint(r[2][0]) == 1:
+                    top = r[2][1]
+                elif isinstance(r, tuple) and r[0] == "adt" and r[1].endswith("ops::Range") and cint(r[4][0]) == 1 and isinstance(r[4][1], tuple) \
+                        and r[4][1][:2] == ("bin", "Add") and cint(r[4][1][3]) == 1:
+                    top = r[4][1][2]
+                if top is not None:
+                    nxt = ("call", e[1], e[2])
+                    return ("unwrap", nxt), top, [("ok", nxt)]
+    for ph, v in loop_phis(b):
+        if isinstance(v, tuple) and v[:3] == ("bin", "Sub", ph) and cint(v[3]) == 1:
+            zero_lt = any(op == "<" and cint(x) == 0 and y == ph for op, x, y in cmp_facts(b.conds())) or \
+                any(op == "!=" and {x, y} == {ph, mk_const("usize", 0)} for op, x, y in eq_facts(b.conds()))
+            if zero_lt:
+                guards = [a for a, v_ in b.conds() if a[0] == "b" and isinstance(a[1], tuple) and a[1] and a[1][0] in ("bin", "cmp") and ph in a[1] and
+                          any(cint(x) == 0 for x in a[1] if isinstance(x, tuple))]
+                return ph, ph[4], guards
+    return None
